@@ -116,6 +116,19 @@ class FunctionInfo:
                 from .inline import unrolled
 
                 node = unrolled(_copy.deepcopy(node) if node is self.node else node)
+            if prog is not None and any(isinstance(x, ast.For) and isinstance(x.iter, ast.Call) and isinstance(x.iter.func, ast.Name) and x.iter.func.id == "range"
+                                        for x in ast.walk(node)):
+                import copy as _copy
+
+                from .inline import index_loops_normalised
+
+                node = index_loops_normalised(_copy.deepcopy(node) if node is self.node else node)
+            if prog is not None and any(isinstance(x, ast.For) and len(x.body) == 1 for x in ast.walk(node)):
+                import copy as _copy
+
+                from .inline import loops_as_comprehensions
+
+                node = loops_as_comprehensions(_copy.deepcopy(node) if node is self.node else node)
             cached = (node, inl)
             self.__dict__["_anode"] = cached
         return cached[0]
